@@ -6,7 +6,7 @@ from explore import explore_scripts
 
 TYPES = ["_x._tcp.local.", "_y._tcp.local."]
 BROWSE = "_services._dns-sd._udp.local."
-INSTS = ["I", "J"]
+INSTS = ["I", "J", "B\u00fcro", "a.b"]
 HOSTS = ["h.local.", "g.local."]
 
 
@@ -29,7 +29,7 @@ def rand_records(rng):
     fl = lambda: 1 if rng.random() < 0.3 else 0
     opts = [
         lambda: rec(t, 12, ttl(), 0, target=i),
-        lambda: rec(i, 33, ttl(), fl(), target=rng.choice(HOSTS), port=rng.choice([80, 631])),
+        lambda: rec(i, 33, ttl(), fl(), target=rng.choice(HOSTS), port=rng.choice([80, 631, 0, 65535])),
         lambda: rec(i, 16, ttl(), fl(), attrs=rng.choice(["_", "6b=76", "6b=-", "61=62+63=."])),
         lambda: rec(rng.choice(HOSTS), rng.choice([1, 28]), ttl(), fl(), addr="4:167772161"),
         lambda: rec(BROWSE, 12, ttl(), 0, target=t),
@@ -46,7 +46,7 @@ def service_batch(rng, t=None, inst=None):
     t = t or rng.choice(TYPES)
     i = (inst or rng.choice(INSTS)) + "." + t
     ttl1, ttl2, ttl3 = [rng.choice([2, 3, 120, 4500]) for _ in range(3)]
-    return [rec(t, 12, ttl1, 0, target=i), rec(i, 33, ttl2, rng.randrange(2), target=rng.choice(HOSTS), port=rng.choice([80, 631])),
+    return [rec(t, 12, ttl1, 0, target=i), rec(i, 33, ttl2, rng.randrange(2), target=rng.choice(HOSTS), port=rng.choice([80, 631, 0, 65535])),
             rec(i, 16, ttl3, rng.randrange(2), attrs=rng.choice(["_", "6b=76", "61=62+63=."]))]
 
 
@@ -97,6 +97,14 @@ def gen_script(rng, nops):
             lines.append("CLOOKUP c0 - 255")
     now += rng.choice([1, 5000, 130000])
     lines.append("ADV %d" % now)
+    if rng.random() < 0.2:
+        # bystander browsers on the same server (and, when there is one, the same cache) come and go
+        out = []
+        for l in lines:
+            out.append(l)
+            if l.startswith(("ADV", "DELIVER", "LATE")) and rng.random() < 0.25:
+                out.append("GHOST browser %s %s" % (hexs(rng.choice(TYPES + [BROWSE])), "c0" if (shared and rng.random() < 0.7) else "-"))
+        lines = out
     return lines
 
 
